@@ -1,5 +1,6 @@
 import RecipeGrid.Model.Table
 import RecipeGrid.Model.Units
+import RecipeGrid.Model.Text
 /-! `renderer/html.py` at the level of the output string. -/
 namespace RG
 
@@ -30,18 +31,6 @@ def quoteattr (s : Str) : Str :=
     if d.contains '\'' then '"' :: (d.flatMap fun c => if c == '"' then S "&quot;" else [c]) ++ ['"']
     else '\'' :: d ++ ['\'']
   else '"' :: d ++ ['"']
-
-def isLineBreak (c : Char) : Bool := inRanges Gen.lineBreakRanges c
-
-/-- `str.splitlines(keepends=True)` -/
-def splitLinesKeep : Str → List Str
-  | [] => []
-  | s =>
-    let rec go (cur : Str) : Str → List Str
-      | [] => if cur.isEmpty then [] else [cur.reverse]
-      | '\r' :: '\n' :: rest => ('\n' :: '\r' :: cur).reverse :: go [] rest
-      | c :: rest => if isLineBreak c then (c :: cur).reverse :: go [] rest else go (c :: cur) rest
-    go [] s
 
 /-- `textwrap.indent(text, "  ")`: lines consisting solely of whitespace are left alone -/
 def indent2 (s : Str) : Str :=
